@@ -6,6 +6,8 @@ import SevenZ.Model.CrashSession
 namespace SevenZ
 open SevenZ.Impl
 
+theorem crc32_lt (a : Bytes) : crc32 a < 2 ^ 32 := crc32Update_lt 0 a
+
 /-- a 32-byte record `A ++ C ++ F` (8 + 4 + 20) torn after `k` bytes over an older one with the same first eight
     bytes: the tear falls in the shared prefix, inside the CRC field, or inside the 20 field bytes -/
 theorem torn_sig_cases (A C C0 F F0 : Bytes) (hA : A.length = 8) (hC : C.length = 4) (hC0 : C0.length = 4)
@@ -121,7 +123,7 @@ theorem sigBytes_length (ofs size crc : Nat) : (sigHeaderBytes ofs size crc).len
 /-- the reader's two gates on an image that starts with a well-formed signature header -/
 theorem headerGate_sig (o s c : Nat) (rest : Bytes) (ho : o < 2 ^ 64) (hs : s < 2 ^ 64) (hc : c < 2 ^ 32) :
     headerGate (sigHeaderBytes o s c ++ rest) =
-      (if ((rest.drop o).take s).length = s ∧ crc32 ((rest.drop o).take s) = c then some ((rest.drop o).take s) else none) := by
+      (if crc32 ((rest.drop o).take s) = c then some ((rest.drop o).take s) else none) := by
   have hF : (sigFields o s c).length = 20 := by simp [sigFields, leBytes_length]
   have hok : startHeaderOk (sigHeaderBytes o s c ++ rest) = true := by
     rw [sig_parts, startHeaderOk_parts _ _ _ (leBytes_length _ _) hF, ofLE_leBytes,
@@ -150,5 +152,44 @@ theorem headerGate_sig (o s c : Nat) (rest : Bytes) (ho : o < 2 ^ 64) (hs : s < 
   simp only [if_true, ofLE_leBytes]
   rw [Nat.mod_eq_of_lt (by omega : o < 256 ^ 8), Nat.mod_eq_of_lt (by omega : s < 256 ^ 8),
     Nat.mod_eq_of_lt (by omega : c < 256 ^ 4), e4]
+
+end SevenZ
+
+namespace SevenZ
+open SevenZ.Impl
+
+/-- a write that starts inside the file at the end of a prefix `P` -/
+theorem applyWrite_over (P Q t : Bytes) :
+    applyWrite (P ++ Q) ⟨P.length, t⟩ = P ++ (t ++ Q.drop t.length) := by
+  unfold applyWrite
+  have h0 : P.length - (P ++ Q).length = 0 := by simp
+  simp only [h0, List.replicate_zero, List.append_nil]
+  rw [List.take_left' rfl, ← List.drop_drop, List.drop_left' rfl, List.append_assoc]
+
+theorem headerGate_none_of_start (img : Bytes) (h : startHeaderOk img = false) : headerGate img = none := by
+  unfold headerGate; simp [h]
+
+/-- an image that still starts with the OLD signature header while the region behind the packed streams has been
+    (partly) overwritten by `t`: it reads as the old archive, or the header CRC gate rejects it, or the overwritten
+    header region collides with the old header under CRC-32 -/
+theorem old_sig_verdict (area hdrOld junk t : Bytes) (ha : area.length < 2 ^ 64) (hh : hdrOld.length < 2 ^ 64) :
+    let img := sigHeaderBytes area.length hdrOld.length (crc32 hdrOld) ++ area ++ (t ++ (hdrOld ++ junk).drop t.length)
+    headerGate img = none ∨ headerGate img = some hdrOld ∨
+      ∃ a, a.length = hdrOld.length ∧ a ≠ hdrOld ∧ crc32 a = crc32 hdrOld := by
+  intro img
+  have hc : crc32 hdrOld < 2 ^ 32 := by have := crc32Update_lt 0 hdrOld; unfold crc32; omega
+  have hg := headerGate_sig area.length hdrOld.length (crc32 hdrOld) (area ++ (t ++ (hdrOld ++ junk).drop t.length)) ha hh hc
+  rw [List.drop_left' rfl] at hg
+  have himg : img = sigHeaderBytes area.length hdrOld.length (crc32 hdrOld) ++ (area ++ (t ++ (hdrOld ++ junk).drop t.length)) := by
+    simp [img, List.append_assoc]
+  rw [← himg] at hg
+  have hlen : ((t ++ (hdrOld ++ junk).drop t.length).take hdrOld.length).length = hdrOld.length := by
+    simp only [List.length_take, List.length_append, List.length_drop]; omega
+  by_cases hcrc : crc32 ((t ++ (hdrOld ++ junk).drop t.length).take hdrOld.length) = crc32 hdrOld
+  · rw [if_pos hcrc] at hg
+    by_cases heq : (t ++ (hdrOld ++ junk).drop t.length).take hdrOld.length = hdrOld
+    · right; left; rw [hg, heq]
+    · right; right; exact ⟨_, hlen, heq, hcrc⟩
+  · left; rw [hg, if_neg hcrc]
 
 end SevenZ
